@@ -100,21 +100,27 @@ func loadKnown() {
 		if line == "" || strings.HasPrefix(line, "#") {
 			continue
 		}
-		var e struct {
-			Property  string `json:"property"`
-			Status    string `json:"status"`
-			Signature string `json:"signature"`
-		}
-		if json.Unmarshal([]byte(line), &e) != nil {
+		// format: "known: property=<ID> signature=<sig> <what fails>"
+		// ("fixed: ..." lines suppress nothing and are ignored here)
+		if !strings.HasPrefix(line, "known:") {
 			continue
 		}
-		if e.Status != "known" {
+		var prop, sig string
+		for _, f := range strings.Fields(line) {
+			if v, ok := strings.CutPrefix(f, "property="); ok && prop == "" {
+				prop = v
+			}
+			if v, ok := strings.CutPrefix(f, "signature="); ok && sig == "" {
+				sig = v
+			}
+		}
+		if prop == "" || sig == "" {
 			continue
 		}
-		if knownSigs[e.Property] == nil {
-			knownSigs[e.Property] = map[string]bool{}
+		if knownSigs[prop] == nil {
+			knownSigs[prop] = map[string]bool{}
 		}
-		knownSigs[e.Property][e.Signature] = true
+		knownSigs[prop][sig] = true
 	}
 }
 
